@@ -217,7 +217,13 @@ def render_forwarding(o, i, fl, placement):
             L += ['w = noop(noop(w_orig))', '']
     else:
         raise ValueError(placement)
-    return '\n'.join(L)
+    # instances of K are FALSY: nothing about a receiver's signature may depend on its truth value
+    out = []
+    for line in L:
+        out.append(line)
+        if line.startswith('class K('):
+            out += ['    def __bool__(self):', '        return False', '    def __len__(self):', '        return 0']
+    return '\n'.join(out)
 
 
 def hint_params(o):
